@@ -112,11 +112,13 @@ def run(ctx):
     pv = ctx.repo.method(DYN, "_produce_value")
     n = 0
     bad = []
-    for has_tf, tdep, force, same_time, own_tf in itertools.product([True, False], repeat=5):
+    from engine.absint import Val
+    for (has_tf, tdep, force, own_tf), rel in itertools.product(itertools.product([True, False], repeat=4), ("same", "later", "earlier")):
         if not has_tf and own_tf:
             continue
+        same_time = rel == "same"
         cached_time = LO
-        now = LO if same_time else HI
+        now = LO if same_time else (HI if rel == "later" else Val(0))
         cached_val = Obj("cached_value")
         gen = Obj("gen", _Dynamic_last=cached_val, _Dynamic_time=cached_time)
         tf = Obj("time_fn")
